@@ -132,6 +132,7 @@ func main() {
 		if o.WorkDir && rng.Intn(2) == 0 {
 			sc.Foreign = 100 + rng.Intn(sc.SpanMs)
 		}
+		sc.Probe = o.WorkDir && stop != "inject"
 		if stop != "drainterm" && rng.Intn(5) < 2 {
 			sc.Restart = []string{"term", "kill"}[rng.Intn(2)]
 			sc.Post = 1 + sc.NMsgs/3
